@@ -169,7 +169,7 @@ pub fn run_dev<G: Cv>(env: &Env<G>, b: &BaseRun<G>, d: &SDev, seed: u64) -> Out 
             comms.push(c);
         }
         SDev::CommitDrop => {
-            let pos = vprog.p1.iter().rposition(|o| *o == Op::C || *o == Op::CD).unwrap();
+            let pos = vprog.p1.iter().rposition(|o| *o == Op::C || *o == Op::CD || *o == Op::C0).unwrap();
             vprog.p1.remove(pos);
             comms.pop();
         }
@@ -186,6 +186,10 @@ pub fn run_dev<G: Cv>(env: &Env<G>, b: &BaseRun<G>, d: &SDev, seed: u64) -> Out 
                 dont_care = Some("value base changed on a circuit without gates");
             }
         }
+    }
+    if matches!(d, SDev::CommitAddB(_) | SDev::CommitAddBb(_) | SDev::CommitNeg(_) | SDev::CommitIdentity(_) | SDev::CommitAddT8(_)) && comms == b.comms {
+        // e.g. negating a commitment that is the identity: the statement did not change
+        dont_care = Some("the deviation leaves the commitment list unchanged");
     }
     let vr = match guarded(|| program::verify::<G>(&vprog, &pc, &env.bp, seed, dev.clone(), &comms, &b.proof, label)) {
         Ok(v) => v,
@@ -216,7 +220,7 @@ pub fn main(o: &Opts) -> i32 {
     progs.extend(size_family(if o.tier == Tier::Quick { 3 } else { 4 }).into_iter().map(|x| x.3));
     progs.extend(extra_programs());
     // multi-commitment bases (the letter alphabet rarely has more than two commitments)
-    for s in ["C C C Kd Kb", "C C M Kd R[Z Kc T]", "T C T C Kd T"] {
+    for s in ["C C C Kd Kb", "C C M Kd R[Z Kc T]", "T C T C Kd T", "C C0 Ks", "C0 C Ks M Kd", "C C0 C Ks R[Z Ks]"] {
         progs.push(Program::parse(s).unwrap());
     }
     if let Some(r) = &replay {
